@@ -9,6 +9,7 @@
 // usage: overlaygen -repo /repo -verif /verif -out DIR file:pkgs ...
 //
 //	e.g. shard/cache/manager.go:sync,atomic  cluster/shardmgr.go:sync,time
+//	     +shard/index/vamana/zz_verif_workers.go=harness/c10/hook/workers.go.txt  (adds a file)
 package main
 
 import (
@@ -43,6 +44,21 @@ func main() {
 	os.MkdirAll(*out, 0o755)
 	replace := map[string]string{}
 	for _, spec := range flag.Args() {
+		if strings.HasPrefix(spec, "+") {
+			// +<path inside the repository>=<source under /verif>: a file ADDED to a
+			// repository package (an accessor to unexported functions for a harness)
+			dst, src, ok := strings.Cut(spec[1:], "=")
+			if !ok {
+				fmt.Fprintf(os.Stderr, "bad add spec %q\n", spec)
+				os.Exit(2)
+			}
+			if _, err := os.Stat(filepath.Join(*repo, dst)); err == nil {
+				fmt.Fprintf(os.Stderr, "%s exists in the repository: refusing to shadow it\n", dst)
+				os.Exit(2)
+			}
+			replace[filepath.Join(*repo, dst)] = filepath.Join(*verif, src)
+			continue
+		}
 		file, pkgs, _ := strings.Cut(spec, ":")
 		src := filepath.Join(*repo, file)
 		fset := token.NewFileSet()
